@@ -381,10 +381,14 @@ Section Samplers.
   End Bulk.
 
   Definition sample_n (fuel : nat) (d : dist T) (n : nat) (s : S) : res (list T * S) := draws (sample fuel d) n s.
+  (** [Matrix::new] as repaired for the C04 finding empty-matrix:value-form-panics: the request 0 x 0 on empty data is
+      accepted (the empty matrix), every other request as [MatMul.matrix_new] decides (a zero dimension is refused) *)
+  Definition matrix_new0 (d : list T) (r c : nat) : option (matrix (T:=T)) :=
+    if ((r =? 0) && (c =? 0) && (length d =? 0))%nat then Some {| nr := 0; nc := 0; dat := d |} else matrix_new d r c.
   (** [Matrix::new(self.sample_n(nrows * ncols), nrows as i32, ncols as i32)] *)
   Definition sample_matrix (fuel : nat) (d : dist T) (nrows ncols : nat) (s : S) : res (matrix (T:=T) * S) :=
     let+ (l, s') := sample_n fuel d (nrows * ncols) s in
-    match matrix_new l nrows ncols with Some m => Ok (m, s') | None => Fail end.
+    match matrix_new0 l nrows ncols with Some m => Ok (m, s') | None => Fail end.
 
   (** ** MVN: [&self.mean + self.decomposed_covariance_matrix.dot(Normal::default().sample_n(dim))] *)
   Definition vec_add (a b : list T) : option (list T) :=
